@@ -221,6 +221,7 @@ class Compiler:
                                                                 f'on the right hand side of any pattern constraint')
                     except (KeyError, IndexError):
                         raise SemanticError(f'Pattern {cons.pat.id} never occurs before.')
+        self._next_temp = next_temp
 
     def _replicate_rules(self):
         self.rep_rules = {}
@@ -236,19 +237,43 @@ class Compiler:
                     for chain in cur_chains:
                         chain.name.append(comp)
                 else:
-                    # Note: this repeats temporary tag numbers, which needs to be fixed before emit.
-                    new_chains = [self.RuleChain(id=rule.id.id,
-                                                 name=chain.name+ref_chain.name,
-                                                 cons_set=chain.cons_set+ref_chain.cons_set,
-                                                 sign_cons=chain.sign_cons)
-                                  for ref_chain in self.rep_rules[comp.id]
-                                  for chain in cur_chains]
+                    # Every expansion of a referred rule gets its own temporary patterns
+                    new_chains = []
+                    for ref_chain in self.rep_rules[comp.id]:
+                        for chain in cur_chains:
+                            ref_name, ref_cons_set = self._with_fresh_temporaries(ref_chain)
+                            new_chains.append(self.RuleChain(id=rule.id.id,
+                                                             name=chain.name+ref_name,
+                                                             cons_set=chain.cons_set+ref_cons_set,
+                                                             sign_cons=chain.sign_cons))
                     assert len(new_chains) > 0
                     cur_chains = new_chains
             if rule.id.id not in self.rep_rules:
                 self.rep_rules[rule.id.id] = cur_chains
             else:
                 self.rep_rules[rule.id.id] += cur_chains
+
+    def _with_fresh_temporaries(self, chain: RuleChain):
+        """
+        Copy the name and the constraints of a rule chain, giving its temporary patterns new numbers.
+        Otherwise two expansions of the same rule would share temporary patterns, and the second
+        occurrence would be taken for a repetition of the first one and lose its constraints.
+        """
+        mapping = {}
+
+        def renumber(tag: str) -> str:
+            if int(tag) >= 0:
+                return tag
+            if tag not in mapping:
+                mapping[tag] = str(self._next_temp)
+                self._next_temp -= 1
+            return mapping[tag]
+
+        name = [psr.Pattern(id=renumber(c.id)) if isinstance(c, psr.Pattern) else c for c in chain.name]
+        cons_set = [psr.TagConstraint(pat=psr.Pattern(id=' '.join(renumber(x) for x in cons.pat.id.split(' '))),
+                                      options=cons.options)
+                    for cons in chain.cons_set]
+        return name, cons_set
 
     def _generate_node(self, depth: int, context: list[RuleChain], parent: int | None,
                        previous_tags: set[int]) -> int:
